@@ -44,10 +44,13 @@ func forEachMatcher(c *Ctx, rule string, fn func(m *matcherCtx)) {
 				c.R.Fail(rule, core.FuncName(s.Fn)+"#accept-unreturned", s.Alloc.Pos(), core.FuncName(s.Fn), "a ProbeResponse is allocated but not returned directly; decision table cannot be built (undecided)")
 			}
 		}
-		total += len(sites)
+		// counted per accept PATH: merging two duplicated accept sites into one helper keeps every path
+		for _, s := range sites {
+			total += len(s.Paths)
+		}
 		fn(&matcherCtx{c: c, d: d, roles: roles, sites: sites})
 	}
-	c.R.Floor(rule+":accept-sites", total, 8)
+	c.R.Floor(rule+":accept-paths", total, 8)
 }
 
 func atomsString(atoms []core.Atom) []string {
